@@ -12,10 +12,22 @@ import scenarios
 import solver_checks
 
 
-def write_file(path, cfg0, decorated=False):
+def write_file(path, cfg0, decorated=False, capitals=False):
     """decorated: the way a person keeps such a file -- comment lines, blank lines, a note at the end (all of it text that a
     rewrite by the program drops, so the rewritten file is SHORTER than the original)"""
     import runs
+    if capitals:
+        # keys typed with capital letters (option names of an INI file are not case sensitive)
+        secs = {}
+        for name, text in cfg0.items():
+            secs.setdefault(name.split(".", 1)[0], []).append((name.split(".", 1)[1], text))
+        with open(path, "w") as f:
+            for sec, kv in secs.items():
+                f.write("[%s]\n" % sec)
+                for k2, v2 in kv:
+                    f.write("%s = %s\n" % (k2.capitalize() if len(k2) > 1 else k2.upper(), v2))
+                f.write("\n")
+        return
     conf = runs.make_config(cfg0)
     with open(path, "w") as f:
         if decorated:
@@ -25,14 +37,14 @@ def write_file(path, cfg0, decorated=False):
             f.write("\n\n# end of file: remember to ask about the missing forms ....................................................\n")
 
 
-def one_session(sid, year, request, cfg0, answers, default, k, kind, work):
+def one_session(sid, year, request, cfg0, answers, default, k, kind, work, capitals=False):
     path = os.path.join(work, "in_%d.habutax" % sid)
     if cfg0 is None:
         if os.path.exists(path):
             os.remove(path)          # --writeback-input creates the file
         before = {}
     else:
-        write_file(path, cfg0, decorated=(sid % 2 == 0))
+        write_file(path, cfg0, decorated=(sid % 2 == 0 and not capitals), capitals=capitals)
         ok, before = cli_driver.file_map(path)
     kb = cli_driver.Keyboard(answers, default=default, interrupt_at=k, kind=kind)
     r1 = cli_driver.run_solve(year, request, path, kb, solution_path=os.path.join(work, "sol_%d" % sid))
@@ -49,7 +61,7 @@ def one_session(sid, year, request, cfg0, answers, default, k, kind, work):
     same = (cli_driver.file_map(s1) == cli_driver.file_map(s2)) if (os.path.exists(s1) and os.path.exists(s2)) else (os.path.exists(s1) == os.path.exists(s2))
     return {"sid": sid, "kind": kind or "none", "k": k or 0, "before": before, "same": bool(same), "returned": r1["exc"] == "",
             "answered": [{"i": n, "v": norm(t)} for (n, t) in answered], "parsed": bool(parsed),
-            "after": {a: norm(b) for a, b in after.items()}, "rerun_asks": kb2.questions,
+            "after": {a: norm(b) for a, b in after.items()}, "rerun_asks": kb2.questions, "asked": list(kb.questions),
             "ended": r1["exc"], "interrupted": kb.interrupted, "nq": len(kb.questions)}
 
 
@@ -92,6 +104,12 @@ def c20(tier):
             every = {v[0]: answers[v[0]] for v in by_sec.values() if len(v) > 1}
             if every and every != files[0]:
                 files.append(every)
+            if len(inputs) > 1:
+                # a file that holds a value the program will refuse (it stops the solve with an error when it is read): the file
+                # must still hold it afterwards, whenever the session ends
+                bad = {i: rng.choice(["0", "1"]) for i in inputs if rng.random() < 0.3}
+                bad[inputs[-1]] = "bad"
+                files.append(bad)
             for cfg0 in files:
                 # how many questions does the uninterrupted session ask?
                 sid += 1
@@ -178,13 +196,13 @@ def c13_sessions(tier, rep, cov):
             by_sec = {}
             for i in inputs:
                 by_sec.setdefault(i.split(".")[0], []).append(i)
-            for style in ("every-section", "random"):
+            for style in ("every-section", "random", "capitals"):
                 if style == "every-section":
                     cfg0 = {v[0]: answers[v[0]] for v in by_sec.values() if len(v) > 1}
                 else:
-                    cfg0 = {i: answers[i] for i in inputs if rng.random() < 0.3}
+                    cfg0 = {i: answers[i] for i in inputs if rng.random() < (0.3 if style == "random" else 0.7)}
                 sid += 1
-                sessions.append(one_session(sid, 1970, prog["request"], cfg0 or None, answers, "0", None, None, work))
+                sessions.append(one_session(sid, 1970, prog["request"], cfg0 or None, answers, "0", None, None, work, capitals=(style == "capitals")))
                 meta[sid] = {"prog": prog["id"], "cfg0": cfg0, "answers": answers, "style": style}
         F.available_forms.pop(1970, None)
         for n in range(3 if tier == "quick" else 30):
